@@ -1,4 +1,5 @@
 import RsomeV.M.ConeDual
+import Mathlib.Algebra.Order.Floor.Defs
 
 /-! # Model of rsome's solver interfaces (C11)
 
@@ -66,6 +67,28 @@ def ubBin : Option K → Option K
   | none => some 1
   | some u => some (min u 1)
 
+/-- the tolerance `1e-9` of the inward rounding of integer bounds in `def_sol` -/
+def intEps : K := 1 / 10 ^ 9
+
+/-- `np.ceil(lb - 1e-9)` on an extended-real lower bound (`ceil(-inf) = -inf`) -/
+def lbRound [FloorRing K] : Option K → Option K
+  | none => none
+  | some l => some ((⌈l - intEps⌉ : ℤ) : K)
+/-- `np.floor(ub + 1e-9)` on an extended-real upper bound (`floor(inf) = inf`) -/
+def ubRound [FloorRing K] : Option K → Option K
+  | none => none
+  | some u => some ((⌊u + intEps⌋ : ℤ) : K)
+
+/-- the lower bound `def_sol` hands to `milp` for a column of type `c`: binaries clipped to `≥ 0`
+first, then every non-`'C'` column rounded inward -/
+def milpLb [FloorRing K] (c : Char) (l : Option K) : Option K :=
+  let l' := if c = 'B' then lbBin l else l
+  if c != 'C' then lbRound l' else l'
+/-- the upper bound `def_sol` hands to `milp` for a column of type `c` -/
+def milpUb [FloorRing K] (c : Char) (u : Option K) : Option K :=
+  let u' := if c = 'B' then ubBin u else u
+  if c != 'C' then ubRound u' else u'
+
 /-! ### `def_sol` (SciPy) -/
 
 /-- arguments of `opt.linprog(c, A_ub=, b_ub=, A_eq=, b_eq=, bounds=)`.  The four matrices are
@@ -123,8 +146,11 @@ def DefSolArgs.c : DefSolArgs K → ℕ → K
   | .linprog d => d.c
   | .milp d => d.c
 
-/-- `def_sol(formula)`: the SOC / exponential cones of `formula` are ignored (with a warning) -/
-def defSol (P : ConeProg K) (vt : ℕ → Char) : DefSolArgs K :=
+/-- `def_sol(formula)`: the SOC / exponential cones of `formula` are ignored (with a warning).
+MILP branch: the bounds of the binary columns are clipped to `[0,1]`, then the bounds of every
+non-`'C'` column are rounded inward with the tolerance `1e-9` (`lb = ceil(lb - 1e-9)`,
+`ub = floor(ub + 1e-9)`; HiGHS may return a suboptimal point for fractional integer bounds). -/
+def defSol [FloorRing K] (P : ConeProg K) (vt : ℕ → Char) : DefSolArgs K :=
   let L := P.lp
   if allCont vt L.nc then
     .linprog {
@@ -139,8 +165,8 @@ def defSol (P : ConeProg K) (vt : ℕ → Char) : DefSolArgs K :=
       n := L.nc, m := L.nr, c := L.c, a := L.a
       bl := fun i => if L.eq i then some (L.b i) else none
       bu := L.b
-      lb := fun j => if vt j = 'B' then lbBin (L.lb j) else L.lb j
-      ub := fun j => if vt j = 'B' then ubBin (L.ub j) else L.ub j
+      lb := fun j => milpLb (vt j) (L.lb j)
+      ub := fun j => milpUb (vt j) (L.ub j)
       integrality := fun j => vt j != 'C' }
 
 /-! ### ECOS -/
